@@ -24,7 +24,7 @@ MANIFEST_INFO = {
     "engine": "D",
     "design_ref": "DESIGN.md section 5, C15",
     "technique": "exhaustive enumeration of Spinner.run histories (function shape x firing time relative to the timeout x leftovers x signal handlers x 1-3 runs per Spinner) on the real SelectReactor under a virtual clock; tie order of simultaneous calls and the instant of an external interrupt are chooser choice points explored by stateless DFS; timeline reference model",
-    "level_text": "Every 1- and 2-run history over 17 function shapes (5 signal/stop-wrapper configurations for single runs) (return/raise/Deferred firing or failing before, at, after the timeout or never/stop requested by the function/a slow callback overrunning both the timeout and a later stop request/re-entry on the same and through a second Spinner) x 5 leftover shapes x clear_junk or not (timeout 2; single runs also with timeouts 0 and 1), 2- and 3-run histories in which the Deferred of a run that ended without it fires or fails before the next run starts or half a time unit into it, and every 3-run history over a reduced alphabet, is executed on one Spinner with every tie order and every interrupt instant (<=1 per run); result, exception type, junk accounting, reactor cleanliness, reactor.stop identity and the three signal handlers are checked against the model after every run.",
+    "level_text": "Every 1- and 2-run history over 17 function shapes (5 signal/stop-wrapper configurations for single runs) (return/raise/Deferred firing or failing before, at, after the timeout or never/stop requested by the function/a slow callback overrunning both the timeout and a later stop request/re-entry on the same and through a second Spinner) x 5 leftover shapes x clear_junk or not (timeout 2; single runs also with timeouts 0 and 1), 2- and 3-run histories in which the Deferred of a run that ended without it fires or fails before the next run starts or half a time unit into it, and every 3-run history over a reduced alphabet, is executed on one Spinner (on the virtual-time SelectReactor; result shapes x 0-4 leftover calls x selectables also on a task.Clock-based reactor) with every tie order and every interrupt instant (<=1 per run); result, exception type, junk accounting, reactor cleanliness, reactor.stop identity and the three signal handlers are checked against the model after every run.",
     "level_note": "The real reactor code runs on a virtual clock (seconds()/doIteration() overridden): the installed wall-clock global reactor is not used because the relative order of 'Deferred fires' and 'timeout fires' could not be owned there. Interrupts are delivered between reactor iterations (every distinct instant), not between two calls due at the same instant.",
 }
 
@@ -438,6 +438,102 @@ def scenarios(tier):
 NSHARDS = 64
 
 
+class ClockReactor:
+    """A second deterministic virtual-time reactor, built on twisted.internet.task.Clock (as
+    MemoryReactorClock and most hand-made test reactors are).  Unlike the real reactor's, its
+    getDelayedCalls() hands out the live list."""
+
+    def __init__(self):
+        from twisted.internet.task import Clock
+
+        self.clock = Clock()
+        self.running = False
+        self._when_running = []
+        self._readers = []
+        self.callLater = self.clock.callLater
+        self.getDelayedCalls = self.clock.getDelayedCalls
+        self.seconds = self.clock.seconds
+
+    def callWhenRunning(self, f, *a, **kw):
+        self._when_running.append((f, a, kw))
+
+    def run(self):
+        self.running = True
+        hooks, self._when_running = self._when_running, []
+        for f, a, kw in hooks:
+            f(*a, **kw)
+        while self.running:
+            calls = self.clock.getDelayedCalls()
+            if not calls:
+                raise WouldBlock("nothing left to wait for")
+            self.clock.advance(max(0.0, min(c.getTime() for c in calls) - self.clock.seconds()))
+
+    def crash(self):
+        self.running = False
+
+    def stop(self):
+        self.crash()
+
+    def iterate(self, delay=0):
+        self.clock.advance(delay)
+
+    def addReader(self, r):
+        self._readers.append(r)
+
+    def removeAll(self):
+        out, self._readers = self._readers, []
+        return out
+
+
+class WouldBlock(Exception):
+    pass
+
+
+def check_clock_reactor(res):
+    """Every (result shape x number of leftover delayed calls x selectables) on the Clock-based
+    reactor: result, nothing pending afterwards, every leftover reported as junk."""
+    import threading
+
+    if threading.current_thread() is not threading.main_thread():
+        return
+    for shape in ("ret", "fire1", "fail1", "never"):
+        for nleft in range(0, 5):
+            for nsel in (0, 2):
+                reactor = ClockReactor()
+                spinner = Spinner(reactor)
+                left = []
+                sels = [Selectable() for _ in range(nsel)]
+
+                def fn():
+                    for i in range(nleft):
+                        left.append(reactor.callLater(5.0 + i, lambda: None))
+                    for s_ in sels:
+                        reactor.addReader(s_)
+                    if shape == "ret":
+                        return "value"
+                    d = defer.Deferred()
+                    if shape == "fire1":
+                        reactor.callLater(1.0, d.callback, "value")
+                    elif shape == "fail1":
+                        reactor.callLater(1.0, d.errback, FnError("boom"))
+                    return d
+
+                o = observe(lambda: spinner.run(2.0, fn))
+                res.evaluations += 1
+                res.traces_validated += 1
+                want = {"ret": ("value", "value"), "fire1": ("value", "value"), "fail1": ("raised", "FnError", "boom"), "never": ("raised", "TimeoutError", None)}[shape]
+                where = "Clock-based reactor, function shape %s leaving %d delayed call(s) and %d selectable(s)" % (shape, nleft, nsel)
+                if o != want:
+                    res.violation("C15/result", "%s: run() gave %r, expected %r" % (where, o, want), {"clock_reactor": [shape, nleft, nsel]})
+                pending = [c for c in reactor.getDelayedCalls() if c.active()]
+                if pending or reactor._readers:
+                    res.violation("C15/cleanup", "%s: %d delayed call(s) still pending afterwards, %d selectable(s) still registered" % (where, len(pending), len(reactor._readers)), {"clock_reactor": [shape, nleft, nsel]})
+                junk = spinner.get_junk()
+                missing = [c for c in left if not any(c is j for j in junk)] + [s_ for s_ in sels if not any(s_ is j for j in junk)]
+                if missing:
+                    res.violation("C15/junk", "%s: %d leftover(s) not reported as junk" % (where, len(missing)), {"clock_reactor": [shape, nleft, nsel]})
+
+
 def shards(tier):
     return list(range(NSHARDS))
 
@@ -446,6 +542,8 @@ def run_shard(shard, tier, seed):
     res = ShardResult()
     scs = scenarios(tier)
     mine = scs[shard::NSHARDS]
+    if shard == 0:
+        check_clock_reactor(res)
     for sc in mine:
         def run_one(ch, sc=sc):
             return execute(sc, ch)
@@ -500,6 +598,10 @@ def meta(tier):
 
 
 def replay(data):
+    if "clock_reactor" in data:
+        res = ShardResult()
+        check_clock_reactor(res)
+        return not res.violations, "\n".join(v["message"] for v in res.violations)
     sc = _dec(data["scenario"])
     obs, problems = execute(sc, Chooser(data["choices"]))
     return (not problems), "scenario=%r\nobservations=%r\nproblems=%r" % (sc, obs, problems)
